@@ -1,11 +1,15 @@
 (* C14 — Format forwarding reproduces the active directive exactly.
    Model of MakeFormat (internal/fmtforward) and of the directive syntax read by doPrintf.
-   Proved: MakeFormat reports the bare %v case and only that case.  The round trip
-   (parse_directive (make_format st verb) = (st, verb) for all widths and precisions) is evaluated
-   on the complete product named by the property, against the implementation's MakeFormat, the
-   real printer and the model's parser (_partial: not yet an unbounded theorem). *)
-From Redact Require Import Bytes Tokens Utf8 Fmt Value LBuf Printer Api Forward RoutesP.
+   Proved: MakeFormat reports the bare %v case and only that case; THE ROUND TRIP, unbounded: for
+   every flag subset (minus the pair '-','0' which no parser reports), every width in 1..10^6,
+   every precision in 0..10^6 and every verb that is an ASCII letter or a valid rune beyond
+   ASCII, reading the string MakeFormat returns back with doPrintf's directive parser yields
+   exactly that state and verb (decimal print/parse, flag loop, UTF-8 encode/decode are each
+   proved inverse).  The agreement of the model's MakeFormat and parser with the code and with
+   the standard fmt is checked on the complete product named by the property. *)
+From Redact Require Import Bytes Tokens Utf8 Fmt Value LBuf Printer Api Forward RoutesP FormatP.
 Import List ListNotations.
+From Coq Require Import Lia.
 Open Scope Z_scope.
 
 Theorem C14_justV : forall s verb,
@@ -14,6 +18,18 @@ Theorem C14_justV : forall s verb,
    st_zero s = false /\ st_wid s = None /\ st_prec s = None).
 Proof. exact make_format_justV. Qed.
 Print Assumptions C14_justV.
+
+Theorem C14_roundtrip : forall s v, st_ok s -> verb_ok v ->
+  parse_directive (snd (make_format s v)) = Some (s, v).
+Proof. exact make_format_roundtrip. Qed.
+Print Assumptions C14_roundtrip.
+
+(* Non-vacuity: "%+-# 123456.654321" + U+1F6D1 satisfies the hypotheses and is what MakeFormat returns *)
+Example C14_roundtrip_nonvacuous :
+  let s := mkSt true true true true false (Some 123456) (Some 654321) in
+  st_ok s /\ verb_ok 128721 /\
+  snd (make_format s 128721) = [37;43;45;35;32;49;50;51;52;53;54;46;54;53;52;51;50;49;240;159;155;145]%N.
+Proof. split; [|split]; [unfold st_ok; cbn; lia | right; split; [lia | reflexivity] | reflexivity]. Qed.
 
 (* (a present width of 0 can only come from a '*' operand; MakeFormat re-emits it as the '0'
    flag, which renders identically; it is left out of the product)
@@ -37,7 +53,7 @@ Definition roundtrip_ok (s : fstate) (v : Z) : bool :=
   | None => false
   end.
 
-Theorem C14_roundtrip_on_the_product_partial :
+Theorem C14_roundtrip_on_the_product :
   forallb (fun s => forallb (roundtrip_ok s) c14_verbs) c14_states = true.
 Proof. vm_compute. reflexivity. Qed.
-Print Assumptions C14_roundtrip_on_the_product_partial.
+Print Assumptions C14_roundtrip_on_the_product.
